@@ -348,8 +348,9 @@ def _same(S, got, want, tol):
 def units(tier):
     us = []
     layouts = [(1, 2, 60), (1, 4, 60)] if tier == "quick" else \
-              [(1, 2, 60), (1, 3, 30), (1, 4, 60), (1, 5, 288), (2, 2, 60), (2, 3, 60)]
-    # (NCOEFF = 6 with symbolic coefficients: the degree-5 tolerance query does not finish in 400 s; 2x5, 1x7, 1x12 ran past 3000 s)
+              [(1, 2, 60), (1, 3, 30), (1, 4, 60), (2, 2, 60), (2, 3, 60)]
+    # (NCOEFF = 5: ~30 s alone but its degree-4 tolerance query went 'unknown' at the 60 s query limit on a loaded machine;
+    #  NCOEFF = 6: does not finish in 400 s; 2x5, 1x7, 1x12 ran past 3000 s)
     for ne, nc, sp in layouts:
         for what in ("call", "f0"):
             u_ = ParseEval(ne, nc, what, span=sp)
